@@ -111,8 +111,12 @@ theorem c14_limiter_config :
 open KM.Gen.C14 in
 /-- **validateUserTOTP as read** (regenerated table): the statement order the model follows —
 spacing test and `lastCheckTime` update under the mutex, then lock-out test, 24 h reset, replay
-guard, the device loop (the only `totp.Validate` of an authentication path), `failCount++`, the
-lock-out update, `lastFailTime`; and the constants are the ones declared (2 s, 24 h, every 5th). -/
+guard, the device loop (per enabled device `totpMatchedCounter`; a miss or a step not later than the
+last accepted one goes on, i.e. ends in the failure path; otherwise the matched step is saved),
+`failCount++`, the lock-out update, `lastFailTime`; the constants are the ones declared (2 s, 24 h,
+every 5th); `totpMatchedCounter` tries `counter`, `counter-1`, `counter+1` with skew 0 through
+`totp.ValidateCustom` and returns the step that validated; it is the only code comparison of an
+authentication path (`validateNewTOTP` checks an enrolment against the user's own pending secret). -/
 theorem c14_totp_source :
     totpOrder = [.loadProfile, .loadErr, .lock, .readLimit, .spacingTest, .setLastCheck, .storeLimit,
       .unlock, .lockoutTest, .resetTest, .replayTest, .deviceLoop, .incFail, .lockoutUpdate,
@@ -120,7 +124,9 @@ theorem c14_totp_source :
     spacingSecsUsed = minSecsBetweenTOTPValidations ∧ 2 ≤ spacingSecsUsed ∧
     resetSecsUsed = numHoursForLocalTOTPRateLimitReset * 3600 ∧
     everyUsed = numFailedTOTPChecksForTimeoutIncrease ∧ 0 < everyUsed ∧ totpPeriod = 30 ∧
-    totpValidateSites = ["validateNewTOTP".toList, "validateUserTOTP".toList] ∧
+    totpValidateSites = ["totpMatchedCounter".toList, "validateNewTOTP".toList] ∧
+    totpMatchedCounterCallers = ["validateUserTOTP".toList] ∧
+    matchOffsets = some [0, -1, 1] ∧ matchSkew = some 0 ∧ matchShapeOK = true ∧
     validateUserTOTPCallers = ["internalTOTPAuthHandler".toList, "verifyTOTPHandler".toList] := by
   decide
 
@@ -207,20 +213,20 @@ theorem c14_locked_no_eval (s : Totp) (a : Attempt) (h : a.now < s.lockoutExp) :
   · omega
 
 /-- **Success resets**: an accepted code clears the failure count and ends any lock-out; the next
-evaluated failure counts as the first. Acceptance needs a right code outside spacing, lock-out and
-replay guard. -/
+evaluated failure counts as the first. Acceptance needs a code that belongs to a time step *later*
+than the last accepted one, outside spacing, lock-out and same-period guard; that step is stored. -/
 theorem c14_success_resets (s : Totp) (a : Attempt) (h : (step s a).2 = .accepted) :
     (step s a).1.failCount = 0 ∧ (step s a).1.lockoutExp = a.now ∧
-    (step s a).1.lastSuccCounter = a.counter ∧
-    a.correct = true ∧ s.lastCheck + spacingNs ≤ a.now ∧ s.lockoutExp ≤ a.now ∧
-    s.lastSuccCounter ≠ a.counter ∧
+    (∃ m, a.matched = some m ∧ s.lastSuccCounter < m ∧ (step s a).1.lastSuccCounter = m) ∧
+    s.lastCheck + spacingNs ≤ a.now ∧ s.lockoutExp ≤ a.now ∧ s.lastSuccCounter ≠ a.counter ∧
     ∀ b : Attempt, (step (step s a).1 b).2 = .rejected → (step (step s a).1 b).1.failCount = 1 := by
-  unfold step at h ⊢
+  have hacc := accepted_step (f := lockNext) h
+  unfold step at h hacc ⊢
   rcases stepWith_cases lockNext s a with ⟨_, e⟩ | ⟨_, _, e⟩ | ⟨_, _, _, e⟩ | ⟨h1, h2, h3, h4, e⟩ |
-      ⟨_, _, _, _, e⟩ <;> rw [e] at h ⊢ <;> try (cases h; done)
-  refine ⟨rfl, rfl, rfl, h4, h1, h2, h3, ?_⟩
+      ⟨_, _, _, _, e⟩ <;> rw [e] at h hacc ⊢ <;> try (cases h; done)
+  refine ⟨rfl, rfl, hacc, h1, h2, h3, ?_⟩
   intro b hb
-  rcases stepWith_cases lockNext ⟨a.now, 0, s.lastFail, a.now, a.counter⟩ b with ⟨_, e'⟩ |
+  rcases stepWith_cases lockNext ⟨a.now, 0, s.lastFail, a.now, matchedOr a⟩ b with ⟨_, e'⟩ |
       ⟨_, _, e'⟩ | ⟨_, _, _, e'⟩ | ⟨_, _, _, _, e'⟩ | ⟨_, _, _, _, e'⟩ <;> rw [e'] at hb ⊢ <;>
       try (cases hb; done)
   show fcNext _ _ = 1
@@ -228,26 +234,62 @@ theorem c14_success_resets (s : Totp) (a : Attempt) (h : (step s a).2 = .accepte
   simp only []
   split <;> rfl
 
-/-- **Replay guard**: once a code has been accepted in a 30-second period, no attempt carrying the
-same period counter is accepted, whatever else happens in between, until another period's code
-is accepted. (Its cross-period weakness is property C05's subject.) -/
-theorem c14_replay_guard (s : Totp) (a : Attempt) (h : s.lastSuccCounter = a.counter) :
-    (step s a).2 ≠ .accepted ∧ (step s a).1.lastSuccCounter = s.lastSuccCounter := by
+/-- **A code is good once** (step level): an attempt in the period of the last accepted code, or
+whose code belongs to a step not later than the last accepted one (the same code again, in its own
+or in the adjacent period, or any older code), is never accepted; the stored step stays — and it
+never goes back on any step. A replayed right code outside the same period is an *evaluated
+failure*: it counts towards the lock-out. -/
+theorem c14_replay_guard (s : Totp) (a : Attempt)
+    (h : s.lastSuccCounter = a.counter ∨ ∀ m, a.matched = some m → m ≤ s.lastSuccCounter) :
+    (step s a).2 ≠ .accepted ∧ (step s a).1.lastSuccCounter = s.lastSuccCounter ∧
+    (s.lastSuccCounter ≠ a.counter → s.lastCheck + spacingNs ≤ a.now → s.lockoutExp ≤ a.now →
+      (step s a).2 = .rejected) := by
   unfold step
-  rcases stepWith_cases lockNext s a with ⟨_, e⟩ | ⟨_, _, e⟩ | ⟨_, _, _, e⟩ | ⟨_, _, h3, _, e⟩ |
+  rcases stepWith_cases lockNext s a with ⟨h1, e⟩ | ⟨_, h2, e⟩ | ⟨_, _, h3, e⟩ | ⟨_, _, h3, h4, e⟩ |
       ⟨_, _, h3, _, e⟩ <;> rw [e]
-  · exact ⟨by simp, rfl⟩
-  · exact ⟨by simp, rfl⟩
-  · exact ⟨by simp, rfl⟩
-  · exact absurd h h3
-  · exact absurd h h3
+  · exact ⟨by simp, rfl, fun _ hg _ => by omega⟩
+  · exact ⟨by simp, rfl, fun _ _ hl => by omega⟩
+  · exact ⟨by simp, rfl, fun hne => absurd h3 hne⟩
+  · obtain ⟨m, hm, hlt⟩ := fresh_iff.mp h4
+    rcases h with h | h
+    · exact absurd h h3
+    · have := h m hm; omega
+  · exact ⟨by simp, rfl, fun _ _ _ => rfl⟩
+
+theorem c14_counter_monotone (s : Totp) (a : Attempt) :
+    s.lastSuccCounter ≤ (step s a).1.lastSuccCounter := lastSucc_mono lockNext s a
+
+/-- **A code is good once** (every state, every sequence of attempts by any users): every accepted
+attempt carries a matched time step, and two accepted attempts of one user carry strictly
+increasing steps — no code, and no older code, is ever accepted a second time. -/
+theorem c14_one_time {U : Type} [DecidableEq U] (m : U → Totp) (ops : List (U × Attempt)) :
+    (∀ e ∈ traceM step m ops, e.out = .accepted → ∃ k, e.matched = some k) ∧
+    (traceM step m ops).Pairwise (fun e1 e2 => e1.user = e2.user → e1.out = .accepted →
+      e2.out = .accepted → ∃ k1 k2, e1.matched = some k1 ∧ e2.matched = some k2 ∧ k1 < k2) := by
+  constructor
+  · intro e he hacc
+    obtain ⟨k, hk, _⟩ := trace_accept lockNext ops m e he hacc
+    exact ⟨k, hk⟩
+  · induction ops generalizing m with
+    | nil => exact List.Pairwise.nil
+    | cons op ops ih =>
+      simp only [traceM]
+      refine List.Pairwise.cons ?_ (ih _)
+      intro e he hu h1 h2
+      obtain ⟨k2, hk2, hlt⟩ := trace_accept lockNext ops _ e he h2
+      simp only [stepM] at hu h1 hlt ⊢
+      obtain ⟨k1, hk1, _, hst⟩ := accepted_step h1
+      rw [← hu] at hlt
+      simp only [upd, if_true] at hlt
+      unfold step at hlt
+      exact ⟨k1, k2, hk1, hk2, by omega⟩
 
 /-! ### the function as found -/
 
 /-- twelve wrong codes three seconds apart, then the right one -/
 def unfixedOps : List (Unit × Attempt) :=
-  (List.range 12).map (fun (i : Nat) => ((), ⟨1000000000 * sec + (3 * (i : Int)) * sec, 33333333, false⟩)) ++
-    [((), ⟨1000000000 * sec + 36 * sec, 33333334, true⟩)]
+  (List.range 12).map (fun (i : Nat) => ((), ⟨1000000000 * sec + (3 * (i : Int)) * sec, 33333333, none⟩)) ++
+    [((), ⟨1000000000 * sec + 36 * sec, 33333334, some 33333334⟩)]
 
 /-- **As found** (`lockoutExpirationTime.Add(…)` with the result discarded): all twelve wrong codes
 are evaluated, `failCount` reaches 12, the expiry is never in the future, the thirteenth attempt is
@@ -271,8 +313,8 @@ def lockNextExtendPrev (s : Totp) (now : Int) : Int :=
   if fcNext s now % every = 0 then lockBase s now + lockStepNs else lockBase s now
 
 def extendPrevOps : List (Unit × Attempt) :=
-  (List.range 4).map (fun (i : Nat) => ((), ⟨1000000000 * sec + (3 * (i : Int)) * sec, 1, false⟩)) ++
-  (List.range 10).map (fun (i : Nat) => ((), ⟨1000000000 * sec + 82800 * sec + (3 * (i : Int)) * sec, 1, false⟩))
+  (List.range 4).map (fun (i : Nat) => ((), ⟨1000000000 * sec + (3 * (i : Int)) * sec, 1, none⟩)) ++
+  (List.range 10).map (fun (i : Nat) => ((), ⟨1000000000 * sec + 82800 * sec + (3 * (i : Int)) * sec, 1, none⟩))
 
 theorem c14_extend_previous_counterexample :
     (traceM (stepWith lockNextExtendPrev) (fun _ => Totp.init) extendPrevOps).map (·.out) =
@@ -282,10 +324,16 @@ theorem c14_extend_previous_counterexample :
   decide
 
 /-- non-vacuity: a right code from a fresh state is accepted; five wrong codes lock for an hour -/
-example : (step Totp.init ⟨1000000000 * sec, 33333333, true⟩).2 = .accepted := by decide
+example : (step Totp.init ⟨1000000000 * sec, 33333333, some 33333333⟩).2 = .accepted := by decide
 example : ((traceM step (fun _ => Totp.init)
-    ((List.range 6).map (fun (i : Nat) => ((), ⟨1000000000 * sec + (3 * (i : Int)) * sec, 33333333, false⟩)))).map (·.out))
+    ((List.range 6).map (fun (i : Nat) => ((), ⟨1000000000 * sec + (3 * (i : Int)) * sec, 33333333, none⟩)))).map (·.out))
     = List.replicate 5 Outcome.rejected ++ [Outcome.locked] := by decide
 example : every = 5 ∧ lockStepNs = 3600 * sec := by decide
+/-- the C05 scenario: a code accepted in period c is refused 31 s later in period c+1 (where it is
+still inside the validation window) and counts as a failure; the next period's own code is accepted -/
+example : ((traceM step (fun _ => Totp.init)
+    [((), ⟨1000000000 * sec, 33333333, some 33333333⟩), ((), ⟨1000000000 * sec + 31 * sec, 33333334, some 33333333⟩),
+     ((), ⟨1000000000 * sec + 34 * sec, 33333334, some 33333334⟩)]).map (·.out))
+    = [Outcome.accepted, Outcome.rejected, Outcome.accepted] := by decide
 
 end KM.RateLimit
